@@ -1,10 +1,11 @@
 (* C07 — lockedfile contents change atomically: Read/Write/Transform linearise; Transform
    rolls back.  Only the property theorems, each closed by [exact] of a lemma proved in
    LockedFile/TransformProofs.v and LockedFile/LinProofs.v, with Print Assumptions beneath. *)
-From Coq Require Import List NArith.
+From Coq Require Import List NArith Sorted.
 From Coq.Strings Require Import Byte.
 From GI Require Import Gen.LockedFileConsts LockedFile.LockedFile LockedFile.LockBasics
-  LockedFile.LockProofs LockedFile.TransformProofs.
+  LockedFile.LockProofs LockedFile.TransformProofs
+  LockedFile.LinBasics LockedFile.LinProofs LockedFile.LinTheorems.
 Import ListNotations.
 
 (* ---- faults: every plan with at most one faulty operation (a failing write may have
@@ -44,3 +45,90 @@ Theorem C07_transform_t_fails : forall t old fd plan,
   end.
 Proof. exact transform_t_fails. Qed.
 Print Assumptions C07_transform_t_fails.
+
+(* ---- schedules: every interleaving of any number of clients (LinProofs / LinTheorems) *)
+
+Theorem C07_register_invariant : forall cfg f s i,
+  wf_cfg cfg -> reachable cfg f s ->
+  (forall c, holds c LEx (ltab (st_os s) i) = false) ->
+  content_of (files (st_os s) i) = reg s i.
+Proof. exact register_invariant. Qed.
+Print Assumptions C07_register_invariant.
+
+Theorem C07_linearizable : forall cfg f s,
+  wf_cfg cfg -> reachable cfg f s ->
+  (forall i, legal (content_of (f i)) (lin s i) (reg s i) /\
+             StronglySorted newer (lin s i) /\
+             forall e, In e (lin s i) -> entry_ok cfg i e) /\
+  (forall c x, returned s c x ->
+     (status s c = SIdle /\ x = ResErr) \/
+     (status s c = SClosing /\
+      exists e t0 t1, In e (lin s (c_ino (cfg c))) /\ le_client e = c /\
+        (x, le_after e) = call_spec (flags_of cfg c) (body_of cfg c) (le_before e) /\
+        t_inv s c = Some t0 /\ t_resp s c = Some t1 /\ t0 <= le_time e <= t1)).
+Proof. exact linearizable. Qed.
+Print Assumptions C07_linearizable.
+
+Theorem C07_real_time_order : forall cfg f s i e1 e2 t1 t2,
+  wf_cfg cfg -> reachable cfg f s ->
+  In e1 (lin s i) -> In e2 (lin s i) ->
+  t_resp s (le_client e1) = Some t1 -> t_inv s (le_client e2) = Some t2 -> t1 < t2 ->
+  le_time e1 < le_time e2.
+Proof. exact real_time_order. Qed.
+Print Assumptions C07_real_time_order.
+
+Theorem C07_read_complete : forall cfg f s c v,
+  wf_cfg cfg -> reachable cfg f s ->
+  c_call (cfg c) = CRead -> returned s c (ResData v) ->
+  let i := c_ino (cfg c) in
+  exists e, In e (lin s i) /\ le_client e = c /\ le_before e = v /\ le_after e = v /\
+    (v = content_of (f i) \/
+     exists w, In w (lin s i) /\ is_writer cfg w /\ le_time w < le_time e /\ le_after w = v /\
+       snd (call_spec (flags_of cfg (le_client w)) (body_of cfg (le_client w)) (le_before w)) = v).
+Proof. exact read_complete. Qed.
+Print Assumptions C07_read_complete.
+
+Theorem C07_no_stale_read : forall cfg f s c v w tw tc,
+  wf_cfg cfg -> reachable cfg f s ->
+  c_call (cfg c) = CRead -> returned s c (ResData v) ->
+  In w (lin s (c_ino (cfg c))) -> is_writer cfg w ->
+  t_resp s (le_client w) = Some tw -> t_inv s c = Some tc -> tw < tc ->
+  exists e, In e (lin s (c_ino (cfg c))) /\ le_client e = c /\ le_before e = v /\
+            le_time w < le_time e.
+Proof. exact no_stale_read. Qed.
+Print Assumptions C07_no_stale_read.
+
+Theorem C07_write_effect : forall cfg f s c d,
+  wf_cfg cfg -> reachable cfg f s ->
+  c_call (cfg c) = CWrite d -> returned s c ResOk ->
+  exists e, In e (lin s (c_ino (cfg c))) /\ le_client e = c /\ le_after e = d.
+Proof. exact write_effect. Qed.
+Print Assumptions C07_write_effect.
+
+Theorem C07_transform_effect : forall cfg f s c t x,
+  wf_cfg cfg -> reachable cfg f s ->
+  c_call (cfg c) = CTransform t -> returned s c x -> status s c = SClosing ->
+  exists e, In e (lin s (c_ino (cfg c))) /\ le_client e = c /\
+    match t (le_before e) with
+    | Some new => x = ResOk /\ le_after e = new
+    | None => x = ResErr /\ le_after e = le_before e
+    end.
+Proof. exact transform_effect. Qed.
+Print Assumptions C07_transform_effect.
+
+Theorem C07_no_lost_update : forall cfg f s i g,
+  wf_cfg cfg -> reachable cfg f s ->
+  (forall c, c_ino (cfg c) = i ->
+     c_call (cfg c) = CRead \/ c_call (cfg c) = CTransform (fun b => Some (g b))) ->
+  reg s i = Nat.iter (writers cfg (lin s i)) g (content_of (f i)).
+Proof. exact no_lost_update. Qed.
+Print Assumptions C07_no_lost_update.
+
+Theorem C07_no_lost_update_contents : forall cfg f s i g,
+  wf_cfg cfg -> reachable cfg f s ->
+  (forall c, c_ino (cfg c) = i ->
+     c_call (cfg c) = CRead \/ c_call (cfg c) = CTransform (fun b => Some (g b))) ->
+  (forall c, holds c LEx (ltab (st_os s) i) = false) ->
+  content_of (files (st_os s) i) = Nat.iter (writers cfg (lin s i)) g (content_of (f i)).
+Proof. exact no_lost_update_contents. Qed.
+Print Assumptions C07_no_lost_update_contents.
